@@ -155,6 +155,29 @@ def run(chk):
             chk.violate({"kind": "property", "case": lib.show_case(("debsigseq", [b"<%d bytes>" % len(c[1][0])] + c[1][1:])), "impl": got, "expected": want,
                          "explanation": "a check made after other checks on the same loaded package gives another outcome than the same check on a fresh load "
                                         "(expected = fresh-load outcomes, each judged against the signature oracle above)"})
+    # extra members with the special spellings of GNU / BSD ar (a "//" string table, "/0" references into it, "#1/20"): to this
+    # loader they are ordinary extra members - the package still verifies, and the control data exposed is still that of
+    # the signed control member (a long-name table that names a decoy "control.tar" must not change what is loaded)
+    gc, gw = [], []
+    for buf, ms, role, key in base[:4]:
+        ref = chk.run_impl([("debload", [buf])])[0].split(" | ")[0]
+        dctl = debpkg.compress(chk, "", debpkg.make_tar([(b"./control", b"Package: evil\nVersion: 6.6\nArchitecture: all\nMaintainer: E <e@e>\n")]))
+        for extra in ([debpkg.member(b"/0", dctl), debpkg.member(b"//", b"control.tar/\n")],
+                      [debpkg.member(b"//", b"control.tar/\n"), debpkg.member(b"/0", dctl)],
+                      [debpkg.member(b"/0", dctl), debpkg.member(b"//", b"data.tar/\n")],
+                      [debpkg.member(b"#1/12", b"control.tar\x00" + dctl)]):
+            for where in (1, 3, len(ms)):
+                pk = argen.render(ms[:where] + extra + ms[where:])
+                for _ in range(4):
+                    gc.append(("debload", [pk])); gw.append(ref)
+                    gc.append(("debsig", [pk, role, str(key).encode()])); gw.append("ok")
+    gi = chk.run_impl(gc)
+    chk.record("special-member-names", gc, gi, lambda c, r: r.startswith("ok"))
+    for c, got, want in zip(gc, gi, gw):
+        bad = (c[0] == "debload" and got.split(" | ")[0] != want) or (c[0] == "debsig" and not got.startswith("ok x"))
+        if bad:
+            chk.violate({"kind": "property", "case": lib.show_case((c[0], [b"<%d bytes>" % len(c[1][0])] + c[1][1:])), "impl": got[:600], "expected": want[:600],
+                         "explanation": "a signed package with extra members named like ar long-name tables no longer verifies, or exposes control data that does not come from its signed control member"})
     # LIFETIME HISTORIES over several signed packages: load (from memory or from a file), observe the payload, check the
     # signature, close (once or twice, through Deb.Close or the function LoadFile returned), load again ... in any
     # order, several packages alive at once.  Every observation must be the package's own content and every check must
